@@ -187,4 +187,22 @@ theorem prevWalk_from_start (next : Nat → Option Nat) (size start : Nat) (hs :
 example : prevWalk (fun s => if s = 40 then some 20 else if s = 20 then some 30 else some 20) 100 101 [] 40
     = some [40, 20, 30] := by decide +kernel
 
+/-! ## opening never yields "no reader, no error" -/
+
+/-- **open_never_nil_nil** (former finding ROB-4, fixed as D32): in `NewReader` and in
+    `MakeReader`, in every `ErrorHandling` mode, for every outcome of the catalog decode: when the
+    function returns without a `*Reader` it returns an error. -/
+theorem open_never_nil_nil (seq : Bool) (mode : Nat) (err : Option GoErr) (hasPages : Bool)
+    (h : (catalogStep seq mode err hasPages).1 = true) : (catalogStep seq mode err hasPages).2.1.isSome = true := by
+  unfold catalogStep at h ⊢
+  cases err with
+  | none =>
+    cases hasPages <;> cases seq <;> simp [shouldExit] at h ⊢
+    all_goals (split at h <;> simp_all)
+  | some e =>
+    cases hm : e.isMalformed <;> cases hasPages <;> cases seq <;> simp [shouldExit, hm] at h ⊢
+    all_goals (repeat' split) <;> simp_all
+
+example : catalogStep true 0 none false = (true, some errNoPages, false) := by decide
+
 end PdfVerif.C05rob
